@@ -333,6 +333,8 @@ def shapes(tier):
         out.append(task_shape(kname, optional, release, due, horizon))
     pats = {1: [("fixed",), ("var",)], 2: [("fixed", "fixed"), ("var", "zero")], 3: [("fixed", "var", "fixed")]}
     for ename, el in ELEMENTS.items():
+        if getattr(el, "skip_completeness", False):
+            continue
         for vi, variant in enumerate(el.variants):
             plist = pats[el.ntasks] if thorough else pats[el.ntasks][: (2 if vi == 0 else 1)]
             for kinds in plist:
